@@ -127,6 +127,36 @@ def norm_model(line, binary):
     return '%s %s %s | %s' % (cid, code, msg, ' ; '.join(out)), None
 
 
+def easy_expected(model_line, nv, nc):
+    """what mp::NLSolver::ReadSolution() with the library's SOLHandler_Easy must report, derived from the model's (normalised) events
+    for a while(Size()) handler: (ok, x size, y size, solve_result, nbs, registered suffixes, message, result code)"""
+    head, _, evs = model_line.partition(' | ')
+    code = head.split(' ')[0].split('=')[1]
+    x = y = nsuf = nbs = 0
+    sr = -2
+    msg = '-'
+    for e in (evs.split(' ; ') if evs else []):
+        p = e.split(' ')
+        if p[0] == 'msg':
+            msg, nbs = p[1], int(p[2])
+        elif p[0] == 'dual':
+            y = (0 if p[4] == '-' else p[4].count(',') + 1) + (0 if p[2] == 'OK' else 1)    # the failed ReadNext is pushed too
+        elif p[0] == 'primal':
+            x = nv
+        elif p[0] == 'objno':
+            sr = int(p[2][1:])
+        elif p[0] == 'suf':
+            kind = int(p[1])
+            nmax = [nv, nc, 1, 1][kind & 3]
+            idxs = [int(it.split(':')[0]) for it in p[7].split(',')] if p[7] != '-' else []
+            if any(i < 0 or i >= nmax for i in idxs):
+                code = 'BadSuffix'          # the handler calls SetError(Bad_Suffix, "bad suffix element index") and the reader stops
+                break
+            if p[5] == 'OK':
+                nsuf += 1
+    return 'easy ok=%d x=%d y=%d sr=%d nbs=%d nsuf=%d m=%s' % (1 if code == 'OK' else 0, x, y, sr, nbs, nsuf, msg), code
+
+
 def canon_impl(line):
     """canonicalise NaN payloads in an implementation line"""
     return re.sub(r'R([0-9a-f]{16})', lambda m: canon_R(m.group(1)), line)
@@ -147,20 +177,37 @@ def gen_cases(rng, n_cases):
                 if 'namelen' in c:
                     meta['namelen'] = c['namelen']
                 add('corpus:' + fn[:-5], bytes.fromhex(c['hex']), c['nv'], c['nc'], tuple(c.get('pol', (0, 'all', 'all', 'all'))), **meta)
+    for famname, b, nv, nc in solgen.fixed_stream():
+        add(famname, b, nv, nc, (0, 'while', 'while', 'while'))
+    for nm, body in [('negative-index', b'-1 3\n'), ('index-too-large', b'7 3\n'), ('index-ok', b'1 3\n')]:
+        add('easy-handler:targeted-' + nm, b'm\n\nOptions\n3\n1\n1\n0\n1\n1\n2\n2\n0.5\n1\n2\nobjno 0 0\nsuffix 0 1 4 0 0\nfoo\n' + body, 2, 1,
+            (0, 'while', 'while', 'while'), easy=True)
+    n_cases += len(cases)
     while len(cases) < n_cases:
         r = rng.random()
         binary = rng.random() < 0.45
-        if r < 0.08 and not binary:
+        if r < 0.004:
+            add('missing-file', b'', rng.choice([0, 2]), rng.choice([0, 2]), solgen.rand_policy(rng), missing=True)
+        elif r < 0.06:
+            # the library's own handler: NLSolver::ReadSolution() / SOLHandler_Easy (nl-writer2/src/nl-solver.cc) on valid and damaged files
+            s0 = solgen.rand_sol(rng, maxn=rng.choice([3, 12]), with_options=True)
+            s0.nvars = max(1, s0.nvars)
+            b = solgen.bin_bytes(s0) if binary else solgen.text_bytes(s0)
+            mut = 'valid'
+            if rng.random() < 0.5:
+                b, mut = solgen.mutate(rng, b, binary)
+            add('easy-handler:' + mut, b, s0.nvars, s0.ncons, (0, 'while', 'while', 'while'), easy=True)
+        elif r < 0.12 and not binary:
             # printf directives inside the offending line of every malformed-line kind (text format quotes lines in its messages)
             b, nv_true, nc_true, kinds = solgen.printf_hostile_text(rng)
             add('printf-hostile-text:' + kinds[0], b, nv_true, nc_true, (0, rng.choice(['all', 'while']), rng.choice(['all', 'while']), rng.choice(['all', 'while', 'all', 'err:1:7'])))
-        elif r < 0.20:
+        elif r < 0.22:
             # hostile count lines of the Options block (each of the four independently), text and binary
             b, nv_true, nc_true, counts = solgen.hostile_counts_file(rng, binary)
             pol = (0, rng.choice(['all', 'while', 'while']), rng.choice(['all', 'while', 'while']), 'all') if rng.random() < 0.8 else solgen.rand_policy(rng)
             add('hostile-counts-bin' if binary else 'hostile-counts-text', b, rng.choice([nv_true, nv_true, nv_true + 3, 0]),
                 rng.choice([nc_true, nc_true, nc_true + 3, 0]), pol, counts=counts)
-        elif r < 0.24:
+        elif r < 0.26:
             # binary file cut inside an element of the dual / primal vector: that element is not in the file
             s0 = solgen.rand_sol(rng, maxn=rng.choice([3, 12]))
             while not (s0.duals or s0.primals):
@@ -177,7 +224,7 @@ def gen_cases(rng, n_cases):
             else:
                 k = rng.randrange(len(s0.primals)); cut = pstart + 8 * k + rng.randint(1, 7); avail = {'dual': len(s0.duals), 'primal': k}
             add('truncate-in-vector-bin', full[:cut], s0.nvars, s0.ncons, (0, rng.choice(['all', 'while']), rng.choice(['all', 'while']), 'all'), avail=avail)
-        elif r < 0.25:
+        elif r < 0.27:
             # binary suffix record whose name is not NUL-terminated inside namelen
             s0 = solgen.rand_sol(rng, maxn=3)
             s0.sufs = []
@@ -234,8 +281,12 @@ FX = [0]   # model flags word for the tree under test, decided by behavioural pr
 P4 = {'objno': False, 'isuf': False}   # tree has repo_patches/C14-objno-int-range.diff / C14-int-suffix-range.diff (number values are outside the Lean model)
 
 
-def case_line(c):
+def case_line(c, for_driver=False):
     rv, da, pa, sa = c['pol']
+    if c.get('easy'):
+        da = pa = sa = 'while' if for_driver else 'easy'
+    if c.get('missing') and not for_driver:
+        return 'case %s %d %d %d %d %s %s %s missing' % (c['id'], FX[0], c['nv'], c['nc'], rv, da, pa, sa)
     return 'case %s %d %d %d %d %s %s %s %s' % (c['id'], FX[0], c['nv'], c['nc'], rv, da, pa, sa, c['bytes'].hex() or '-')
 
 
@@ -319,7 +370,12 @@ def run_streams(ck, cases, tag):
     with open(cf, 'w') as f:
         for c in cases:
             f.write(case_line(c) + '\n')
-    exe = ck.cxx('h_solread', [os.path.join(VERIF, 'harness', 'h_solread.cc'), os.path.join(REPO, 'nl-writer2', 'src', 'nl-utils.cc')], flags=SAN)
+    cfd = cf + '.drv'          # same cases for the Lean driver: the library's own handler is a while(Size()) handler, a missing file is outside the model
+    with open(cfd, 'w') as f:
+        for c in cases:
+            f.write(case_line(c, True) + '\n')
+    exe = ck.link('h_solread', ck.objects([os.path.join(VERIF, 'harness', 'h_solread.cc')], flags=SAN, tag='c14') + ck.libnlw2_objects(flags=tuple(SAN)),
+                  flags=['-fsanitize=address,undefined'])
     env = {'ASAN_OPTIONS': 'detect_leaks=0:allocator_may_return_null=0:max_allocation_size_mb=3000', 'UBSAN_OPTIONS': 'print_stacktrace=0'}
     rc, out, err = sh([exe, cf, work], env=env, timeout=3000)
     impl = out.split('\n')[:-1] if out.endswith('\n') else out.split('\n')
@@ -331,7 +387,7 @@ def run_streams(ck, cases, tag):
     if rc != 0 or len(impl) != len(cases):
         raise RuntimeError('harness h_solread failed: rc=%s, %d lines for %d cases: %s' % (rc, len(impl), len(cases), err[-800:]))
     drv = ck.driver('drv_c14')
-    with open(cf) as fi:
+    with open(cfd) as fi:
         p = subprocess.run([drv], stdin=fi, capture_output=True, text=True, timeout=3000)
     model = p.stdout.split('\n')[:-1]
     if p.returncode != 0 or len(model) != len(cases):
@@ -346,8 +402,8 @@ def valgrind_confirm(ck, cases):
         ck.notes.append('valgrind not available: indeterminate-read cases are reported from the model only')
         return [None] * len(cases)
     work = os.path.join(BUILD, 'c14work')
-    exe = ck.cxx('h_solread_plain', [os.path.join(VERIF, 'harness', 'h_solread.cc'), os.path.join(REPO, 'nl-writer2', 'src', 'nl-utils.cc')],
-                 flags=['-O0', '-g', '-DNDEBUG'])
+    exe = ck.link('h_solread_plain', ck.objects([os.path.join(VERIF, 'harness', 'h_solread.cc')], flags=('-O0', '-g', '-DNDEBUG'), tag='c14p') +
+                  ck.libnlw2_objects(flags=('-O0', '-g', '-DNDEBUG')))
     cf = os.path.join(work, 'vg.cases')
     with open(cf, 'w') as f:
         for c in cases:
@@ -393,7 +449,39 @@ KNOWN_UB_SIG = {
 }
 
 
+ANCHORS = ['nl-writer2/include/mp/sol-reader2.hpp', 'nl-writer2/include/mp/sol-reader2.h', 'nl-writer2/include/mp/sol-handler.h',
+           'nl-writer2/src/nl-utils.cc', 'nl-writer2/include/mp/nl-utils.h', 'nl-writer2/src/nl-solver.cc']
+MECH = [r'ReadSOLFile', r'sufheadcheck', r'gsufread', r'bsufread', r'Lget', r'VecReader', r'CheckReader', r'mp::Read', r'decstring', r'Report', r'serror',
+        r'SOLHandler_Easy', r'NLSolver::ReadSolution']
+
+
+def coverage_run(ck):
+    import covtool
+    rng = random.Random(ck.seed * 1000003 + 14)
+    cases = gen_cases(rng, 2500)
+    covdir = os.path.join(BUILD, 'cov_c14')
+    exe = covtool.build(covdir, [os.path.join(VERIF, 'harness', 'h_solread.cc'), os.path.join(REPO, 'nl-writer2', 'src', 'nl-utils.cc')] + cov_extra_sources())
+    cf = os.path.join(covdir, 'cases.txt')
+    with open(cf, 'w') as f:
+        for c in cases:
+            f.write(case_line(c) + '\n')
+    rc, out, err = sh([exe, cf, covdir], timeout=3000)
+    files = covtool.collect(covdir)
+    res = covtool.summarize(files, ANCHORS, MECH)
+    p = covtool.write_report('C14', res)
+    ck.log('coverage: anchored files %s %% lines, %s %% branches; %d uncovered items in the mechanism functions -> %s'
+           % (res['anchor_line_cov'], res['anchor_branch_cov'], len(res['mechanism_uncovered']), p))
+    ck.cov.update({'evaluations': len(cases), 'distinct_nontrivial': 0, 'rule': 'coverage measurement run (VERIF_COVERAGE=1), no verdict',
+                   'obligations': 0, 'discharged': 0, 'anchor_line_cov': res['anchor_line_cov'], 'anchor_branch_cov': res['anchor_branch_cov']})
+
+
+def cov_extra_sources():
+    return [os.path.join(REPO, x) for x in Check.LIBNLW2_SRC if not x.endswith('nl-utils.cc')]
+
+
 def run(ck):
+    if os.environ.get('VERIF_COVERAGE'):
+        return coverage_run(ck)
     ck.level = 'proof'
     proof_ok, failing = ck.proof_stage('MpVerif.C14.Props', 'MpVerif/C14/Props.lean', 'C14_',
                                         ['MpVerif/C14/*.lean'], expect_min=21)
@@ -415,15 +503,55 @@ def run(ck):
     evkinds = {}
     ntriv = set()
     corr_bad = []
+    model_classes = set()
+    n_easy = [0]
     uninit_cases = []
     ub_hits = {}
     n_events = 0
     for c, il, ml in zip(cases, impl, model):
         fam[c['family']] = fam.get(c['family'], 0) + 1
+        if ' | ' in ml:
+            mh, _, mev = ml.partition(' | ')
+            model_classes.add((c['bytes'][:4] == b'\x06\0\0\0', mh.split(' ')[1], tuple(e.split(' ')[0] + (':' + e.split(' ')[2] if e.split(' ')[0] in ('dual', 'primal') else '') for e in mev.split(' ; ')) if mev else ()))
         il = canon_impl(il)
         binary = c['bytes'][:4] == b'\x06\0\0\0'
+        if c.get('missing'):
+            # outside the model (readSol assumes the file exists): documented code Fail_Open with a message, nothing delivered
+            if il != '%s code=FailOpen msg=1 | ' % c['id']:
+                ck.add_violation('missing-file:not-reported-as-fail-open', 'a missing .sol file gave: %s' % il[:120], {'case': case_line(c), 'impl': il})
+            codes['FailOpen'] = codes.get('FailOpen', 0) + 1
+            continue
         if ml == 'bad-op' or il == 'bad-op':
             corr_bad.append((c, il, ml, 'bad-op'))
+            continue
+        if c.get('easy'):
+            n_easy[0] += 1
+            if il.split(' ')[1] == 'ABORT':
+                ck.add_violation('easy-handler:abort:%s' % il.split(' ')[2], 'NLSolver::ReadSolution with the library handler SOLHandler_Easy aborted (%s) [nVars=%d nCons=%d, %d bytes]'
+                                 % (il.split(' ')[2], c['nv'], c['nc'], len(c['bytes'])), {'case': case_line(c), 'impl': il, 'model': ml})
+                continue
+            try:
+                expn, tag = norm_model(ml, binary)
+            except Exception as e:
+                corr_bad.append((c, il, ml, 'cannot interpret model line: %r' % (e,)))
+                continue
+            if tag is not None:
+                continue
+            want, want_code = easy_expected(expn.partition(' ')[2], c['nv'], c['nc'])
+            head, _, body = il.partition(' | ')
+            rc = head.split(' ')[1].split('=')[1]
+            m = re.match(r'easy ok=(\d) x=(\d+) y=(\d+) ', body)
+            if m and (int(m.group(2)) > c['nv'] or int(m.group(3)) > c['nc']):
+                ck.add_violation('easy-handler:more-values-than-the-problem-has', 'NLSolution holds %s primal / %s dual values for a problem with %d variables / %d constraints'
+                                 % (m.group(2), m.group(3), c['nv'], c['nc']), {'case': case_line(c), 'impl': il, 'model': ml})
+            if body != want:
+                corr_bad.append((c, il, ml, 'library handler (SOLHandler_Easy) result differs; model expects: ' + want))
+            if rc == 'NotSet':
+                ck.add_violation('nlsolver:sol-read-result-code-never-set', 'NLSolver::GetSolReadResultCode() returns Result_Not_Set after ReadSolution() (expected %s): sol_result_ is never assigned'
+                                 % want_code, {'case': case_line(c), 'impl': il, 'how': 'harness/h_solread.cc easy mode: NLSolver::LoadModel + ReadSolution()'})
+            elif rc != want_code:
+                corr_bad.append((c, il, ml, 'NLSolver::GetSolReadResultCode() = %s, model expects %s' % (rc, want_code)))
+            codes['easy:' + want_code] = codes.get('easy:' + want_code, 0) + 1
             continue
         try:
             exp, tag = norm_model(ml, binary)
@@ -500,10 +628,19 @@ def run(ck):
         'traces_validated_against_impl': len(cases) - len(corr_bad),
         'generator_families': fam, 'result_codes_hit': codes, 'event_kinds_hit': evkinds, 'events_total': n_events,
         'known_ub_classes_hit': ub_hits,
+        'model_outcome_classes': len(model_classes), 'model_result_codes': sorted({m[1] for m in model_classes}),
+        'library_handler_cases': n_easy[0],
         'correspondence': {'lines_compared_model_vs_impl': len(cases), 'disagreements': len(corr_bad)},
         'exhaustive': False,
     })
     ck.notes.append('memory-safety / UB clause: proved on the model (for the patched reader in full, for the reader as is up to four modelled UB classes with counterexamples); on the real code it is observed by sanitizers on the generated inputs only')
+    try:
+        cj = json.load(open(os.path.join(VERIF, 'design_notes', 'coverage', 'C14.json')))
+        ck.cov.update({'anchor_line_cov': cj['anchor_line_cov'], 'anchor_branch_cov': cj['anchor_branch_cov'],
+                       'mechanism_line_cov': cj.get('mechanism_line_cov'), 'mechanism_branch_cov': cj.get('mechanism_branch_cov'),
+                       'coverage_note': 'measured by the last VERIF_COVERAGE=1 run (gcov-12, quick-tier stream), see design_notes/coverage/C14.md'})
+    except Exception:
+        pass
     ck.assumptions += [
         'the .sol file exists and is a regular file (Fail_Open is not reachable from byte strings)',
         'the handler only calls ReadNext while Size() > 0 and passes a documented code and a %-free message to SetError',
